@@ -420,4 +420,3 @@ func asInstr(v ssa.Value) ssa.Instruction {
 	}
 	return nil
 }
-
